@@ -131,6 +131,7 @@ type Description struct {
 	LiftInfo    [][2]string
 	FaultKinds  []string
 	Workers     int // preferred number of worker processes (0 = 16)
+	QuickBudget, ThoroughBudget float64 // exploration wall-clock seconds per tier (0 = 45 / 1200)
 }
 
 type Component struct {
@@ -443,10 +444,17 @@ func batch(p Prop, seed uint64, tier string, count int, budget float64, workers 
 		}
 	}
 	if budget == 0 {
+		d := p.Describe()
 		if tier == "thorough" {
 			budget = 1200
+			if d.ThoroughBudget > 0 {
+				budget = d.ThoroughBudget
+			}
 		} else {
 			budget = 45
+			if d.QuickBudget > 0 {
+				budget = d.QuickBudget
+			}
 		}
 	}
 	if v := os.Getenv("VERIF_BUDGET_S"); v != "" {
@@ -574,6 +582,17 @@ func batch(p Prop, seed uint64, tier string, count int, budget float64, workers 
 		}
 		vios = append(vios, o.Violations...)
 		tot.Samples = append(tot.Samples, o.Samples...)
+	}
+	for cls, n := range tot.VioCount {
+		if strings.HasPrefix(cls, "infra-") {
+			for _, v := range vios {
+				if v.Class == cls {
+					fmt.Fprintf(os.Stderr, "INFRASTRUCTURE (%d runs): %s\n", n, v.Detail)
+					break
+				}
+			}
+			return 2
+		}
 	}
 	exploreWall := time.Since(start).Seconds()
 	sort.Slice(vios, func(i, j int) bool { return vios[i].RunIndex < vios[j].RunIndex })
